@@ -221,7 +221,7 @@ class Extractor:
                 elif any(b in rel for b in info["bases"]):
                     rel.add(c)
                     changed = True
-        return rel
+        return sorted(rel)       # (a list: the traversal order must not depend on the harness's own hash seed)
 
     # ---------------------------------------------------------------- class attribute facts
     def _class_attr_info(self):
@@ -383,7 +383,7 @@ class Extractor:
                 if c not in out and any(b in out for b in info["bases"]):
                     out.add(c)
                     changed = True
-        return out
+        return sorted(out)
 
     def _ctor_class(self, e, fn, depth=0):
         """class evidently produced by expression `e` (constructor call, classmethod on a class,
@@ -695,7 +695,7 @@ class Extractor:
                     if not b:
                         continue
                     if b[0] == "param":
-                        for fname in self.inst_args.get(c, {}).get(b[1], ()):
+                        for fname in sorted(self.inst_args.get(c, {}).get(b[1], ())):
                             out.extend(self.fns[q2] for q2 in self.by_name.get(fname, []))
                     else:
                         for g in self.by_name.get(b[1], []):
@@ -718,12 +718,14 @@ class Extractor:
                 # ---- primitives: get_rng / random.* / np.random.* ---------------------------
                 if isinstance(f, ast.Name) and f.id == "get_rng" or \
                         (isinstance(f, ast.Attribute) and f.attr == "get_rng"):
+                    # (entered WITH a seed, whether this call is reached with None is decided by the
+                    # data flow above -- every get_rng call is a sink of the skeleton)
                     if not node.args and not node.keywords:
-                        facts["global_any"].append(("get_rng()", node.lineno))
+                        facts["global_U"].append(("get_rng()", node.lineno))
                     else:
                         a = node.args[0] if node.args else node.keywords[0].value
                         if isinstance(a, ast.Constant) and a.value is None:
-                            facts["global_any"].append(("get_rng(None)", node.lineno))
+                            facts["global_U"].append(("get_rng(None)", node.lineno))
                         elif self._mentions(a, derived, seeded_attrs):
                             facts["global_U"].append(("get_rng(seed) with seed=None", node.lineno))
                     continue
@@ -752,6 +754,14 @@ class Extractor:
                     for a in node.args:
                         if self._is_set_expr(a, set_names, set_attrs) and not self._int_set(a, intset_names):
                             facts["hash"].append((f"{f.id}(<set>)", node.lineno))
+                # max / min / sorted WITH a key over a set: ties between keys are broken by the
+                # iteration order (and a key function that draws from a generator pairs draws with
+                # elements in that order)
+                if isinstance(f, ast.Name) and f.id in ("max", "min", "sorted") and \
+                        any(kw.arg == "key" for kw in node.keywords):
+                    for a in node.args[:1]:
+                        if self._is_set_expr(a, set_names, set_attrs) and not self._int_set(a, intset_names):
+                            facts["hash"].append((f"{f.id}(<set>, key=..)", node.lineno))
                 if isinstance(f, ast.Attribute) and f.attr == "join" and node.args and \
                         self._is_set_expr(node.args[0], set_names, set_attrs):
                     facts["hash"].append(("join(<set>)", node.lineno))
